@@ -589,6 +589,17 @@ def check_operator(ctx, rep):
     pvar = sorted(pvars)[0] if len(pvars) == 1 else None
     fresh_ok = pvar is not None
     stale = []
+    # a "draw" is every statement that gives the momentum variable a new value before the integrator reads it: the draws from N(0, M) and anything that mixes, rescales or
+    # replaces the drawn value afterwards (partial refreshment with the momentum of the previous step, …)
+    ints_stmt = stmt_of(int_calls[0])
+    redefs = [st for st in ast.walk(fn) if isinstance(st, (ast.Assign, ast.AugAssign)) and st is not ints_stmt
+              and any(isinstance(t, ast.Name) and t.id == pvar for t in (st.targets if isinstance(st, ast.Assign) else [st.target]))]
+    seen_stmts = {id(stmt_of(x)) for x in samp}
+    extra_defs = [st for st in redefs if id(st) not in seen_stmts]
+    _stmt_of = stmt_of
+    def stmt_of(x, _orig=_stmt_of):
+        return x if isinstance(x, ast.stmt) else _orig(x)
+    samp = list(samp) + extra_defs
     for x in samp:
         d = cfg.node_of(stmt_of(x))
         others = {cfg.node_of(stmt_of(y)).id for y in samp if y is not x}
